@@ -61,7 +61,7 @@ CLAIMS = {
              text="Lifecycle.tla models decl/live/tflag over 14 operations; TLC checks CacheCurrent, NeverRaises, QueriesIdempotent, DeclUntouched, SetValueLocal on all reachable states; every generated history is executed on the real object: outcome, is_transcribed, declared lists after each call, and at every transcribing call the live NLP (rows by call site, objective, parameters, start, grid, solver in effect) against a freshly written OCP",
              ref="DESIGN.md section 4 C13"),
  'C17': dict(tech="TLA+ spec BSplines.tla (Cox-de Boor in exact rationals) with spline laws checked by TLC; predictions replayed against the helper functions and grid='bspline' signals",
-             text="PARTIAL (SplineMethod itself is not covered). TLC checks partition of unity, non-negativity, linear precision at the Greville points and unit derivative coefficients of the identity spline for orders 0..4, N<=5/8, uniform/geometric/irregular breakpoints, 0..2/4 sub-samples; eval_on_knots (edges, sub-samples, sub-grid), spline values, bspline_derivative and get_greville_points are compared exactly; variable(grid='bspline') under MultipleShooting/DirectCollocation: samples on the control grid and at every refinement equal the Cox-de Boor evaluation of the coefficients, der() is the analytic derivative in physical time, and a grid='bspline' parameter in the ODE reaches the right interval (explicit-Euler gap rows)",
+             text="TLC checks partition of unity, non-negativity, linear precision at the Greville points and unit derivative coefficients of the identity spline for orders 0..4, N<=5/8, uniform/geometric/irregular breakpoints, 0..2/4 sub-samples; eval_on_knots (edges, sub-samples, sub-grid), spline values, bspline_derivative and get_greville_points are compared exactly; variable(grid='bspline') under MultipleShooting/DirectCollocation: samples on the control grid and at every refinement equal the Cox-de Boor evaluation of the coefficients, der() is the analytic derivative in physical time, and a grid='bspline' parameter in the ODE reaches the right interval (explicit-Euler gap rows); SplineMethod on integrator chains of length 2..4: every chain member's samples on the control and refined grids equal the derivative splines of the coefficient variables (chain dynamics hold identically), coefficients sit at the Greville times, the path constraint is imposed at every (refined) grid point and boundary constraints once; on three chain problems SplineMethod and MultipleShooting reach the same optimum (solver relation, 1e-5)",
              ref="DESIGN.md section 4 C17"),
  'C19': dict(tech="TLC model checking of ToFunction.tla (call data = imperative data, isolation from later updates) + scenarios replayed: ocp.to_function vs a freshly written OCP driven imperatively",
              text="TLC enumerates argument lists (parameters p, q; guesses of sampled states/controls), values current when the function is made, later imperative updates and call values, and supplies the data the call must work on; the real function's results are compared (1e-6) with set_value/set_initial/solve/sample on a fresh OCP with exactly that data, for MS/SS/DC and iteration limits 1 and 50 (the limit 1 makes the result depend on the guesses)",
@@ -73,7 +73,7 @@ CLAIMS = {
 NOTES = {
  'C02': "degrees with irrational nodes (radau d>=3, legendre d>=2) are not predicted numerically yet",
  'C03': "asymptotic rates for general smooth ODEs, schemes with irrational nodes and 'within the requested tolerance' as such are not decided; CVODES quadratures are only required to be within 5e-2 (no error control by default)",
- 'C17': "SplineMethod (chain dynamics, gist at Greville points, equality of optima with shooting) is not covered: clause C17.c/d of DESIGN.md remain open",
+ 'C17': "SplineMethod with grid='inf' constraints, vector-valued chains and mixed chain lengths in one problem are not covered; equality of optima is a solver-level relation on three problems",
  'C19': "scaled states/controls inside to_function are not exercised",
  'C08': "collocation degrees with irrational nodes and the convergence clause are not covered; DC probes are generic (not feasible), so the final sample of the last step is excluded there",
  'C15': "DirectCollocation degree 4 (irrational nodes) is not predicted numerically; tightness as M grows is not decided",
